@@ -130,19 +130,19 @@ macro_rules! c10 {
     };
 }
 
-// @verif property=C10 tier=quick timeout=600 bounds="Encoding::from_bom on every byte string of <= 4 bytes"
+// @verif property=C10,C01 tier=quick timeout=600 bounds="Encoding::from_bom on every byte string of <= 4 bytes"
 c10!(c10_bom4, 6, clause_bom::<4>());
-// @verif property=C10 tier=quick timeout=600 bounds="U16LeIterator / U16BeIterator on every byte string of <= 5 bytes (symbolic length)"
+// @verif property=C10,C01 tier=quick timeout=600 bounds="U16LeIterator / U16BeIterator on every byte string of <= 5 bytes (symbolic length)"
 c10!(c10_units5, 8, clause_units::<5>());
 // @verif property=EXP tier=thorough timeout=3000 mem=32 bounds="Encoding::Utf8.decode on every 1-byte string" covers=1
 c10!(c10_utf8_n1, 8, clause_utf8::<1, 3>());
 // @verif property=EXP tier=thorough timeout=3000 mem=28 bounds="Encoding::Utf16LE.decode on every sequence of 2 code units (all BMP scalars, all surrogate pairings)"
 c10!(c10_utf16le_k2, 8, clause_utf16::<2, 5, 8>(true, false));
-// @verif property=C10 tier=quick timeout=900 bounds="Encoding::Utf16BE.decode on 1 code unit + an arbitrary odd trailing byte" covers=2
+// @verif property=C10,C01 tier=quick timeout=900 bounds="Encoding::Utf16BE.decode on 1 code unit + an arbitrary odd trailing byte" covers=2
 c10!(c10_utf16be_k1_odd, 8, clause_utf16::<1, 3, 4>(false, true));
-// @verif property=C10 tier=quick timeout=900 bounds="Encoding::Utf16LE.decode on the empty input and on 1 code unit without tail" covers=2
+// @verif property=C10,C01 tier=quick timeout=900 bounds="Encoding::Utf16LE.decode on the empty input and on 1 code unit without tail" covers=2
 c10!(c10_utf16le_k1, 8, clause_utf16::<1, 3, 4>(true, false));
-// @verif property=C10 tier=quick timeout=900 bounds="Encoding::Utf16LE.decode on 1 code unit + an arbitrary odd trailing byte" covers=2
+// @verif property=C10,C01 tier=quick timeout=900 bounds="Encoding::Utf16LE.decode on 1 code unit + an arbitrary odd trailing byte" covers=2
 c10!(c10_utf16le_k1_odd, 8, clause_utf16::<1, 3, 4>(true, true));
 // Vacuity twin.
 // @verif property=C10 tier=thorough expect=fail timeout=900 bounds="vacuity twin of c10_utf16le_k1_odd"
